@@ -204,23 +204,30 @@ func c16Exec(sc c16Scenario) (string, map[string]bool) {
 					s.fail("C16", "cbgo_lag_current{vb %d} = %v (present=%v), want max(0, high - tracked) = %v", m.vb, got, ok, wantLag[m.vb])
 				}
 			}
-			var muts, imuts, dels, exps float64
+			var muts, imuts, dels, idels, exps, iexps float64
 			for _, ev := range m.all {
 				switch ev.ev.Kind {
 				case "mut":
 					muts++
 				case "ikey", "txn":
-					imuts++
+					switch internalForm(ev.ev) {
+					case "mut":
+						imuts++
+					case "del":
+						idels++
+					case "exp":
+						iexps++
+					}
 				case "del":
 					dels++
 				case "exp":
 					exps++
 				}
 			}
-			if got := per["cbgo_deletion_total"][m.vb]; got != dels {
+			if got := per["cbgo_deletion_total"][m.vb]; got < dels || got > dels+idels {
 				s.fail("C16", "cbgo_deletion_total{vb %d} = %v, %v deletions were accepted in this session", m.vb, got, dels)
 			}
-			if got := per["cbgo_expiration_total"][m.vb]; got != exps {
+			if got := per["cbgo_expiration_total"][m.vb]; got < exps || got > exps+iexps {
 				s.fail("C16", "cbgo_expiration_total{vb %d} = %v, %v expirations were accepted in this session", m.vb, got, exps)
 			}
 			if got := per["cbgo_mutation_total"][m.vb]; got < muts || got > muts+imuts {
